@@ -1,0 +1,82 @@
+//go:build verif
+
+// Contracts for the transaction handle (tx.go), read by /verif/govc.  Every operation made through the
+// handle reaches the store with the context the handle's ctxFn derives from the caller's (it carries the
+// transaction id), with the caller's key, and the store's answer is handed back: nil stays nil, an error
+// keeps its class.
+package fs_db
+
+// txCtx: the context the handle derives (abstract; CreateTx's callers supply ctxFn).
+//@ pure func txCtx(t *tx, ctx context.Context) context.Context
+//@ iface tx.ctxFn
+//@   params ctx
+//@   ensures derived: result == txCtx(this, ctx)
+
+//@ iface Store.Set
+//@   params ctx, key, b
+//@   modifies world.ucErr, world.ucCtx, world.ucKey
+//@   ensures rec: world.ucErr == result && world.ucCtx == ctx && world.ucKey == key
+//@ iface Store.SetReader
+//@   params ctx, key, reader
+//@   modifies world.ucErr, world.ucCtx, world.ucKey
+//@   ensures rec: world.ucErr == result && world.ucCtx == ctx && world.ucKey == key
+//@ iface Store.Get
+//@   params ctx, key
+//@   modifies world.ucErr, world.ucCtx, world.ucKey
+//@   ensures rec: world.ucErr == result1 && world.ucCtx == ctx && world.ucKey == key
+//@ iface Store.GetReader
+//@   params ctx, key
+//@   modifies world.ucErr, world.ucCtx, world.ucKey
+//@   ensures rec: world.ucErr == result1 && world.ucCtx == ctx && world.ucKey == key
+//@ iface Store.GetKeys
+//@   params ctx
+//@   modifies world.ucErr, world.ucCtx
+//@   ensures rec: world.ucErr == result1 && world.ucCtx == ctx
+//@ iface Store.Delete
+//@   params ctx, key
+//@   modifies world.ucErr, world.ucCtx, world.ucKey
+//@   ensures rec: world.ucErr == result && world.ucCtx == ctx && world.ucKey == key
+//@ iface Store.Create
+//@   params ctx, key
+//@   modifies world.ucErr, world.ucCtx, world.ucKey
+//@   ensures rec: world.ucErr == result1 && world.ucCtx == ctx && world.ucKey == key
+
+// sameClass: the error handed back matches exactly the sentinels the store's error matches.
+//@ pure func sameClass(r error, e error) bool =
+//@     (r == nil <==> e == nil) && forall s error :: s != r ==> (is(r, s) <==> is(e, s))
+
+//@ func (*tx).Set
+//@   requires inv:    t != nil && t.store != nil
+//@   modifies world.ucErr, world.ucCtx, world.ucKey
+//@   ensures  intx:   world.ucCtx == txCtx(t, ctx) && world.ucKey == key
+//@   ensures  answer: sameClass(result, world.ucErr)
+//@ func (*tx).SetReader
+//@   requires inv:    t != nil && t.store != nil
+//@   modifies world.ucErr, world.ucCtx, world.ucKey
+//@   ensures  intx:   world.ucCtx == txCtx(t, ctx) && world.ucKey == key
+//@   ensures  answer: sameClass(result, world.ucErr)
+//@ func (*tx).Get
+//@   requires inv:    t != nil && t.store != nil
+//@   modifies world.ucErr, world.ucCtx, world.ucKey
+//@   ensures  intx:   world.ucCtx == txCtx(t, ctx) && world.ucKey == key
+//@   ensures  answer: sameClass(result1, world.ucErr)
+//@ func (*tx).GetReader
+//@   requires inv:    t != nil && t.store != nil
+//@   modifies world.ucErr, world.ucCtx, world.ucKey
+//@   ensures  intx:   world.ucCtx == txCtx(t, ctx) && world.ucKey == key
+//@   ensures  answer: sameClass(result1, world.ucErr)
+//@ func (*tx).GetKeys
+//@   requires inv:    t != nil && t.store != nil
+//@   modifies world.ucErr, world.ucCtx
+//@   ensures  intx:   world.ucCtx == txCtx(t, ctx)
+//@   ensures  answer: sameClass(result1, world.ucErr)
+//@ func (*tx).Delete
+//@   requires inv:    t != nil && t.store != nil
+//@   modifies world.ucErr, world.ucCtx, world.ucKey
+//@   ensures  intx:   world.ucCtx == txCtx(t, ctx) && world.ucKey == key
+//@   ensures  answer: sameClass(result, world.ucErr)
+//@ func (*tx).Create
+//@   requires inv:    t != nil && t.store != nil
+//@   modifies world.ucErr, world.ucCtx, world.ucKey
+//@   ensures  intx:   world.ucCtx == txCtx(t, ctx) && world.ucKey == key
+//@   ensures  answer: sameClass(result1, world.ucErr)
